@@ -4,6 +4,12 @@
 // Validated against the sandbox libc by harness/native/fmt_diff.c on every run of C20.
 #ifndef VP_FMT_H
 #define VP_FMT_H
+static int vpf_hexval(char c) {
+    if (c >= '0' && c <= '9') return c - '0';
+    if (c >= 'a' && c <= 'f') return c - 'a' + 10;
+    if (c >= 'A' && c <= 'F') return c - 'A' + 10;
+    return -1;
+}
 #if !defined(VP_NATIVE) || defined(VP_FMT_DIFF)
 #include <stdarg.h>
 #include <stddef.h>
@@ -16,12 +22,6 @@ static int vpmodel_unsupported = 0;
 #define VPF(n) n
 #define VPF_ASSERT(c, m) __CPROVER_assert(c, m)
 #endif
-static int vpf_hexval(char c) {
-    if (c >= '0' && c <= '9') return c - '0';
-    if (c >= 'a' && c <= 'f') return c - 'a' + 10;
-    if (c >= 'A' && c <= 'F') return c - 'A' + 10;
-    return -1;
-}
 // cap == (size_t)-1: unbounded (sprintf)
 static int vpf_vformat(char *str, size_t cap, const char *fmt, va_list ap) {
     size_t n = 0;
@@ -105,6 +105,40 @@ int VPF(sscanf)(const char *s, const char *fmt, ...) {
     int r = vpf_vscan(s, fmt, ap);
     va_end(ap); return r;
 }
+// small <string.h>/<ctype.h>/<stdlib.h> models a re-implementation of the two functions may reach for (C11 7.24, 7.4, 7.22.1.4)
+size_t VPF(strspn)(const char *s, const char *accept) {
+    size_t n = 0;
+    for (;; n++) { if (!s[n]) return n; int ok = 0; for (size_t k = 0; accept[k]; k++) if (accept[k] == s[n]) ok = 1; if (!ok) return n; }
+}
+size_t VPF(strcspn)(const char *s, const char *reject) {
+    size_t n = 0;
+    for (;; n++) { if (!s[n]) return n; for (size_t k = 0; reject[k]; k++) if (reject[k] == s[n]) return n; }
+}
+int VPF(isxdigit)(int c) { return vpf_hexval((char)c) >= 0 && c >= 0 && c < 128; }
+int VPF(isdigit)(int c) { return c >= '0' && c <= '9'; }
+int VPF(isspace)(int c) { return c == ' ' || c == '\t' || c == '\n' || c == '\v' || c == '\f' || c == '\r'; }
+unsigned long long VPF(strtoull)(const char *s, char **end, int base) {
+    VPF_ASSERT(base == 16 || base == 10 || base == 0, "S-FMT: strtoull base not modelled");
+    int i = 0;
+    while (VPF(isspace)(s[i])) i++;
+    int neg = 0;
+    if (s[i] == '+' || s[i] == '-') { neg = (s[i] == '-'); i++; }
+    int b = base;
+    if ((b == 16 || b == 0) && s[i] == '0' && (s[i + 1] == 'x' || s[i + 1] == 'X') && vpf_hexval(s[i + 2]) >= 0) { i += 2; b = 16; }
+    else if (b == 0) b = (s[i] == '0') ? 8 : 10;
+    VPF_ASSERT(b != 8, "S-FMT: octal not modelled");
+    unsigned long long v = 0; int any = 0, ovf = 0;
+    for (;;) {
+        int d = vpf_hexval(s[i]);
+        if (d < 0 || d >= b) break;
+        if (v > (~0ULL - (unsigned)d) / (unsigned)b) ovf = 1;
+        v = v * (unsigned)b + (unsigned)d; any = 1; i++;
+    }
+    if (end) *end = (char *)(any ? s + i : s);
+    if (ovf) return ~0ULL;
+    return neg ? (0ULL - v) : v;
+}
+unsigned long VPF(strtoul)(const char *s, char **end, int base) { return (unsigned long)VPF(strtoull)(s, end, base); }
 #ifndef VP_FMT_DIFF
 int __isoc99_sscanf(const char *s, const char *fmt, ...) {
     va_list ap; va_start(ap, fmt);
